@@ -32,7 +32,7 @@ TRUSTED_BASE = [
     "Coq standard library only (QArith, Qcanon, List, Permutation, String, Lia, Lqa/Psatz, ZArith)",
     "hand-written Gallina model of lymph (coq/theories): theorems are about the model",
     "correspondence harness (harness/*.py): generators, Coq term printer/parser, tolerance 1e-9, exception-to-enum map",
-    "source translator harness/translate.py + translate2.py (Python ast -> Gallina, fail-closed): comp_transition_tensor, compute_confusion_matrix, compute_encoding (element_map and main loop), generate_observation, get_state_idx_matrix, tile_and_repeat, row_wise_kron, LymphNodeLevel.comp_trans_prob / comp_bayes_net_prob, AbstractNode.comp_obs_prob, Unilateral.transition_prob; its reading of numpy primitives (coq/theories/Numpy.v) and of attribute accesses on lymph objects (C02, C05, C06, C07, C08, C14)",
+    "source translator harness/translate*.py (14 modules, Python ast -> Gallina, fail-closed; 122 functions of lymph: numerical core, uni-/bilateral/midline pipelines, graph construction, distributions, modalities, samplers, parameter plumbing, named parameters); its reading of numpy / pandas primitives (coq/theories/Numpy*.v) and of attribute accesses on lymph objects (module docstrings); advisory pieces (functions that stored behaviour-preserving refactorings rewrite) are recorded but never alarm on their own",
     "not modelled: IEEE rounding / BLAS summation order, pandas internals, Python hash(), numpy bit generator",
 ]
 
